@@ -218,8 +218,10 @@ func (t *DateTime) Add(val Value) (Value, Value) {
 }
 
 func (t *DateTime) AddDateTimeSpan(val *DateTimeSpan) *DateTime {
-	t = t.AddTimeSpan(val.TimeSpan)
+	// the calendar part first: adding the time part first may carry
+	// into another month before the months of the span are applied
 	t = t.AddDateSpan(val.DateSpan)
+	t = t.AddTimeSpan(val.TimeSpan)
 	return t
 }
 
@@ -234,28 +236,33 @@ func daysOfMonth(year, month int) int {
 }
 
 func (t *DateTime) AddDateSpan(val DateSpan) *DateTime {
-	// calendar days, not a nanosecond count: `days * Day` overflows int64 beyond ~106_751 days
-	result := ToElkDateTime(t.native.AddDate(0, 0, val.Days()))
-	oldDay := result.Day()
-
-	month := result.Month() + int(val.months)
-	year := result.Year() + month/12
+	// Months are applied first, then the calendar days are counted from
+	// the original day of the month, so that `a + (b - a) == b` holds
+	// for the field-wise difference of two dates.
+	month := t.Month() + int(val.months)
+	year := t.Year() + month/12
 	month %= 12
 
-	daysOfNewMonth := daysOfMonth(year, month)
-	newDay := min(oldDay, daysOfNewMonth)
+	var newDay int
+	if val.days == 0 {
+		// a span of whole months stops at the last day of the new month
+		newDay = min(t.Day(), daysOfMonth(year, month))
+	} else {
+		// calendar days, not a nanosecond count: `days * Day` overflows int64 beyond ~106_751 days
+		newDay = t.Day() + val.Days()
+	}
 
 	return NewDateTime(
 		year,
 		month,
 		newDay,
-		result.Hour(),
-		result.Minute(),
-		result.Second(),
-		result.Millisecond(),
-		result.Microsecond(),
-		result.Nanosecond(),
-		result.Zone(),
+		t.Hour(),
+		t.Minute(),
+		t.Second(),
+		t.Millisecond(),
+		t.Microsecond(),
+		t.Nanosecond(),
+		t.Zone(),
 	)
 }
 
